@@ -66,6 +66,116 @@ theorem C16_cmap_pref (subs : List CmapSub) :
     exact findSub_none subs _ _ (h pe hpe) s hs
 
 
+/-- C16_gen_cmap_consts: the numeric constants of `get_nominal_glyph` in the compiled crate (recovered by behavioural
+    probes on a symbol-only and a MacRoman-only font, `tools/gens/cmap.py` → `Gen/Cmap.lean`; the model's `nominal` reads
+    them): the symbol alias covers exactly U+0000..U+00FF and re-looks-up U+F000 + c; MacRoman transcoding starts above
+    U+007F.  A tree with another bound (e.g. `c < 0x00FF`) regenerates another value and this theorem fails. -/
+theorem C16_gen_cmap_consts :
+    RbModel.Gen.Cmap.symbolAliasMax = 0xFF ∧ RbModel.Gen.Cmap.symbolAliasBase = 0xF000 ∧
+    RbModel.Gen.Cmap.macAsciiMax = 0x7F := by decide
+
+/-- C16_symbol_preferred: a font that has a Windows Symbol (3,0) subtable at all gets the FIRST such subtable chosen,
+    whatever other subtables it has and wherever they stand. -/
+theorem C16_symbol_preferred (subs : List CmapSub) (h : ∃ s ∈ subs, s.platform = 3 ∧ s.encoding = 0) :
+    ∃ i s, bestSub subs = some i ∧ subs[i]? = some s ∧ s.platform = 3 ∧ s.encoding = 0 ∧
+      ∀ j, j < i → ∀ s', subs[j]? = some s' → ¬ (s'.platform = 3 ∧ s'.encoding = 0) := by
+  cases hb : bestSub subs with
+  | none =>
+    obtain ⟨s, hs, hp, he⟩ := h
+    exact absurd ⟨hp, he⟩ ((C16_cmap_pref subs).2 hb (3, 0) (by simp [cmapPreference]) s hs)
+  | some i =>
+    obtain ⟨before, pe, after, hsplit, hbefore, ⟨s, hs, hp, he⟩, hfirst⟩ := (C16_cmap_pref subs).1 i hb
+    cases before with
+    | nil =>
+      have hpe : pe = (3, 0) := by
+        simp only [cmapPreference, List.nil_append, List.cons.injEq] at hsplit
+        exact hsplit.1.symm
+      subst hpe
+      exact ⟨i, s, rfl, hs, hp, he, hfirst⟩
+    | cons b rest =>
+      have hb0 : b = (3, 0) := by
+        simp only [cmapPreference, List.cons_append, List.cons.injEq] at hsplit
+        exact hsplit.1.symm
+      subst hb0
+      obtain ⟨s0, hs0, hp0, he0⟩ := h
+      exact absurd ⟨hp0, he0⟩ (hbefore (3, 0) (by simp) s0 hs0)
+
+/-- C16_symbol_alias: for a font whose chosen cmap subtable is Windows Symbol (3,0) — by C16_symbol_preferred every font
+    that has one — the glyph of a code point `c` is
+      * the subtable's own mapping of `c` when it has one (a direct mapping wins over the alias);
+      * otherwise, for every `c ≤ U+00FF`, what the subtable maps `U+F000 + c` to (no glyph when that is unmapped too);
+      * otherwise (`c > U+00FF`) no glyph: nothing above U+00FF is ever aliased. -/
+theorem C16_symbol_alias (f : Font) (i : Nat) (s : CmapSub)
+    (hbest : bestSub f.subs = some i) (hs : f.subs[i]? = some s) (hp : s.platform = 3) (he : s.encoding = 0) (c : Nat) :
+    (∀ g, s.map c = some g → nominal f c = some g) ∧
+    (s.map c = none → c ≤ 0xFF → nominal f c = s.map (0xF000 + c)) ∧
+    (s.map c = none → 0xFF < c → nominal f c = none) := by
+  obtain ⟨hmax, hbase, _⟩ := C16_gen_cmap_consts
+  rw [nominal_of_best f i s hbest hs c]
+  unfold nominalIn
+  rw [hmax, hbase]
+  simp only [hp, he, show ((3 : Nat) == 1) = false from rfl, Bool.false_and, Bool.false_eq_true, if_false,
+    beq_self_eq_true, Bool.true_and]
+  refine ⟨?_, ?_, ?_⟩
+  · intro g hg; simp [hg]
+  · intro hn hc; simp [hn, hc]
+  · intro hn hc; simp [hn]; omega
+
+/-- non-vacuity of C16_symbol_alias, all three cases on one font: a (3,1) subtable first, the (3,0) subtable second and
+    chosen; U+0041 mapped directly AND at U+F041 (direct wins), U+00FF only at U+F0FF (aliased), U+0100 only at U+F100
+    (not aliased), U+00FE nowhere -/
+example :
+    let f : Font := ⟨[⟨3, 1, fun c => if c == 0xFF then some 9 else none⟩,
+                      ⟨3, 0, fun c => if c == 0x41 then some 1 else if c == 0xF041 then some 2 else if c == 0xF0FF then some 3
+                                      else if c == 0xF100 then some 4 else none⟩],
+                     1000, none, none, 800, -200, none, none, fun _ => 0⟩
+    bestSub f.subs = some 1 ∧ nominal f 0x41 = some 1 ∧ nominal f 0xFF = some 3 ∧ nominal f 0x100 = none ∧
+    nominal f 0xFE = none ∧ nominal f 0xF100 = some 4 := by decide
+
+/-- C16_nominal_plain: for every chosen subtable that is neither Windows Symbol nor Macintosh the glyph of `c` is the
+    subtable's own mapping, nothing else: no aliasing, no transcoding. -/
+theorem C16_nominal_plain (f : Font) (i : Nat) (s : CmapSub)
+    (hbest : bestSub f.subs = some i) (hs : f.subs[i]? = some s) (hmac : s.platform ≠ 1)
+    (hsym : ¬ (s.platform = 3 ∧ s.encoding = 0)) (c : Nat) : nominal f c = s.map c := by
+  rw [nominal_of_best f i s hbest hs c]
+  unfold nominalIn
+  have h1 : (s.platform == 1) = false := by simpa using hmac
+  have h2 : (s.platform == 3 && s.encoding == 0) = false := by
+    cases h3 : (s.platform == 3 && s.encoding == 0) with
+    | false => rfl
+    | true =>
+      simp only [Bool.and_eq_true, beq_iff_eq] at h3
+      exact absurd h3 hsym
+  simp only [h1, h2, Bool.false_and, Bool.false_eq_true, if_false]
+  cases s.map c <;> rfl
+
+/-- C16_nominal_mac: a chosen Macintosh subtable is indexed by the code point itself up to U+007F and by the MacRoman
+    byte of the code point above (byte 0 when MacRoman has no such character). -/
+theorem C16_nominal_mac (f : Font) (i : Nat) (s : CmapSub)
+    (hbest : bestSub f.subs = some i) (hs : f.subs[i]? = some s) (hmac : s.platform = 1) (c : Nat) :
+    (c ≤ 0x7F → nominal f c = s.map c) ∧ (0x7F < c → nominal f c = s.map (toMacRoman c)) := by
+  obtain ⟨_, _, hascii⟩ := C16_gen_cmap_consts
+  rw [nominal_of_best f i s hbest hs c]
+  unfold nominalIn
+  rw [hascii]
+  simp only [hmac, beq_self_eq_true, Bool.true_and, show ((1 : Nat) == 3) = false from rfl, Bool.false_and,
+    Bool.false_eq_true, if_false]
+  constructor
+  · intro hc
+    have : ¬ c > 0x7F := by omega
+    simp only [this, decide_false, Bool.false_eq_true, if_false]
+    cases s.map c <;> rfl
+  · intro hc
+    have : c > 0x7F := hc
+    simp only [this, decide_true, if_true]
+    cases s.map (toMacRoman c) <;> rfl
+
+example : ∃ (f : Font) (i : Nat) (s : CmapSub), bestSub f.subs = some i ∧ f.subs[i]? = some s ∧ s.platform = 1 ∧
+    nominal f 0x7F = some 5 ∧ nominal f 0xC4 = some 7 :=
+  ⟨⟨[⟨1, 0, fun c => if c == 0x7F then some 5 else if c == 0x80 then some 7 else none⟩],
+     1000, none, none, 800, -200, none, none, fun _ => 0⟩, 0, _, by decide, rfl, rfl, by decide, by decide⟩
+
+
 /-- C16_default: for every font without layout tables, every Unicode data, all four directions (any
     native direction of the script, any flags, any cluster level, any input clusters), a text whose
     characters are in scope, are neither marks nor default-ignorable, cannot become grapheme
